@@ -35,7 +35,7 @@ def run(ctx, only=None):
         if sanitize.statics_are_write_only():
             ctx.inconc('a suppressed statistics static is read somewhere')
         # Miri (tree borrows): _yield_write_shard, data_ptr() reads of frozen shards, DashMapViewParIter; tiny sizes, 3 threads
-        mrecs, ub = sanitize.miri_libmon(ctx, 'c19_index', ['--len=2', '--random=2', '--rounds=2', '--maxthreads=3', '--seed=%d' % ctx.seed], timeout=3000)
+        mrecs, ub = sanitize.miri_libmon(ctx, 'c19_index', ['--miri=1', '--rounds=1', '--maxthreads=3', '--seed=%d' % ctx.seed], timeout=3000)
         ctx.cov['miri'] = {'sequences': sum(r.get('sequences', 0) for r in mrecs), 'ub_report': bool(ub), 'flags': sanitize.MIRI_FLAGS}
         recs += [r for r in mrecs if r.get('violation')]
         if ub == 'timeout' or (not ub and not any(r.get('done') for r in mrecs)):
